@@ -12,835 +12,638 @@ Definition show_fres (r : fres) : string :=
   end.
 Definition check (rs : list rune) : string := digest (show_fres (format_res rs)).
 Definition full (rs : list rune) : string := show_fres (format_res rs).
-Eval vm_compute in ("<<<M1621>>>" ++ check (runes_of_ascii "
+Eval vm_compute in ("<<<M1572>>>" ++ check (runes_of_ascii "root packet repeatCount {
+    @tag(65535)
+    A {
+        u128,
+        u8x {
+            repeatCount @lengthOf(As),
+            i32 _x @calculatedFrom(""" ++ [128512]%N ++ runes_of_ascii """),
+        },
+        /// triple
+    },
+}
 
-  root packet  repeatCount  {
+options {
+    //x
+    u128 = 7;
+    asx = 0123456789
+    //
+}
 
-    repeat	tag As
-, Logon
+packet len {
+    int8 u128 @lengthOf(a1),
+    @calculatedFrom(""" ++ [233]%N ++ runes_of_ascii "t" ++ [233]%N ++ runes_of_ascii """)
+    @leftPad()
+    @tag(1)
+    //
+    msg_type {
+        // " ++ [128512]%N ++ runes_of_ascii " emoji
+        match leftPad as BodyLength {
+            1 : Foo,
+            [007, 255] : zchar,
+            0 : As,
+            [10, 3, 7, ""abc"", 42] : A,
+            [65535] : calculatedFrom,
+        },
+    },
+    @lengthOf(falsey)
+    repeat BodyLength {
+        char[7] u128 @calculatedFrom(""x y""),
+    },
+    @leftPad('\x00')
+    roots @calculatedFrom(""{,}""),
+    i8i8 @lengthOf(charz),
+    char[7] Header,
+    zchar[42] pack,
+    repeat asx float `{ , }`,
+}
 
-    @calculatedFrom(
+MetaData float {
+    u64 len,
+    uint32 MetaDataX `// not a comment`,
+    uint64 Header,
+    crc Logon,
+}
 
-""it's""  )
-,	@calculatedFrom( 
-""`tick`"" 
-)
-string
-uint8x ,repeat/// triple
-      Pad  u8x
-	`line1
-line2` ,
-    @leftPad(
-    )char[
-	007
+packet u8x {
+    Pad _x `u8 x,`,
+    @calculatedFrom(""packet"")
+    repeat BodyLength metadata,
+    //
+    /// triple
+    @tag(00)
+    repeat u8x {
+        msg_type o `two words`,
+        uint8x @lengthOf(_x),
+        string_ {
+            repeat string string_,
+            repeat string body `a\`,
+            // trailing space 
+            repeat A `" ++ [28040; 24687; 31867; 22411]%N ++ runes_of_ascii "`,
+            match u8x as u8x {
+                ""// no comment"" : options1,
+                [
+                    ""abc"", 10, ""// no comment"", ""abc"", ""CRC32"",
+                    ""CRC32"", ""a	b"", ""packet""
+                ] : i64_,
+                ["""", ""1""] : float,
+                ""1"" : crc,
+                0 : Foo,
+                ""x y"" : A,
+                // a // b
+            },
+        },
+    },
+    char[0] len,
+    body @calculatedFrom(""" ++ [233]%N ++ runes_of_ascii "t" ++ [233]%N ++ runes_of_ascii """) `{ , }`,
+    @tag(0)
+    i32 a1 `line1
+    line2`,
+    @tag(4294967296)
+    @tag(7)
+    body,
+}")).
+Eval vm_compute in ("<<<M1829>>>" ++ check (runes_of_ascii "//	t
+packet MetaDataX {
+    @leftPad()
+    repeat float64 asx,
+}
 
-    ] string_ ,@lengthOf(	Packet
-)	repeat 
-int8 Header
-	`it's` ,
-	// `tick` ""quote"" 'q'
+MetaData Foo {
+    // a // b
+    char[65535] Pad,
+}
 
-  }
+packet body {
+    match asx as charz {
+        // `tick` ""quote"" 'q'
+        10 : u8x,
+        ""it's"" : leftPad,
+        3 : metadata,
+        ""it's"" : x,
+        [65535, """ ++ [233]%N ++ runes_of_ascii "t" ++ [233]%N ++ runes_of_ascii """] : u128,
+        10 : len,
+    },
+    repeat f32 rootA ``,// 50% %s
+    @leftPad(' ')
+    repeat i64 BodyLength,
+    repeatCount {
+        i16 crc @lengthOf(u128),
+    },
+    u16 u @lengthOf(f32a) `// not a comment`,// trailing space 
+    len {
+        match Logon as Foo {
+            """ ++ [233]%N ++ runes_of_ascii "t" ++ [233]%N ++ runes_of_ascii """ : stringy,
+            10 : msg_type,
+            //	t
+            [
+                ""\n"", ""`tick`"", ""abc"", """", 007,
+                1, ""a\""b""
+            ] : i64_,
+            255 : T,
+            ""{,}"" : f32a,
+        },
+        string tag @lengthOf(Z9_),
+        // a // b
+        u32 charz `crlf
+        line`,
+        u8x @lengthOf(rootA),
+    },
+    float,
+    int8 repeatCount @lengthOf(f32a) `crlf
+    line`,
+    zchar[7] BodyLength @lengthOf(string_),
+}
 
-root
-packet pack 
-{uint64 Packet
-	@calculatedFrom(
-	""\n"" 
-)
-    ,}
+packet u128 {
+    x `// not a comment`,
+}//
 
-    options
-{
-    pack = ""// no comment""//x
-  ;
-    body // " ++ [128512]%N ++ runes_of_ascii " emoji
-= 
-""a	b""	;
-
-    }	// trailing space 
-  packet 
-Logon// trailing space 
-    {
-	u8x {
-
-    // 50% %s
-
-trueish
-    @lengthOf(
-    tag
-) 
-`two words`
-, match body  
-      // trailing space 
-  as
-
-int
-
-    {	// trailing space 
-	0
-
-    :
-i8i8}, repeat	uint8x	o
-	,
-
-}	//	t
-,	@tag(
-	65535 )
-    int16
-falsey, zchar[	10
-
-    ]
-float	`100% of %d`
-, 
-repeat
-	    // packet A { u8 x, }
-  calculatedFrom	`a\`
-
+packet x {
+    A `doc`,
+    Packet @calculatedFrom(""\" ++ [233]%N ++ runes_of_ascii """) `say ""hi""`,
+    repeat string asx,
+    @lengthOf(MetaDataX)
+    repeat char[4294967296] string_ `u8 x,`,
+    @lengthOf(charz)
+    char[0123456789] f32a `say ""hi""`,
+}")).
+Eval vm_compute in ("<<<M209>>>" ++ check (runes_of_ascii "root packet o { repeat zchar[
+65535
+    ] o, repeat char[ // trailing space 
+0 ] zchar,int64 x `
+`
+//
+//
+,// a // b
+string msg_type // a // b
+,
+    // c
+    @leftPad ('\x00' ) repeat
+calculatedFrom
+    // trailing space 
+    A ,
+string Header@lengthOf( a1)`crlf
+line`  ,repeat crc
+{ f32 Pad,
+    match
+charz
+    /// triple
+    as
+Logon
+    //
+    { [ ""1"" , // c
+""CRC32"" ,	""" ++ [28040; 24687]%N ++ runes_of_ascii """ , 00,
+""1"" , ""{,}"" , """ ++ [28040; 24687]%N ++ runes_of_ascii """	, ""{,}""	]
+// packet A { u8 x, }
+//x
+: uint8x,
+[ 3 , ""CRC32""
+] :
+    // a // b
+    lengthOf , 42 : u128 , }
+    ,  Z9_ ,
+    float64
+u128
+`{ , }` , }
+,
+    u16 calculatedFrom
 ,
 zchar[
-10 ] crc
-    @lengthOf(
-repeatCount 
-)
-`" ++ [28040; 24687; 31867; 22411]%N ++ runes_of_ascii "`
-, // `tick` ""quote"" 'q'
-	  match
+3 ]
+calculatedFrom //	t
+,
+@tag( 10) match charz as _x {
+    ""abc""
+    /// triple
+    :
+// `tick` ""quote"" 'q'
+//	t
+zchar
+, ""packet"" : roots ,255 //x
+: options1 , ""1""	: uint8x// packet A { u8 x, }
+,
+    // 50% %s
+    }
     // trailing space 
-  // " ++ [128512]%N ++ runes_of_ascii " emoji
-  rootA
-    as
-	repeatCount
-
-{3
-
-:
-    crc	""CRC32"" 
-:	//x
-    	x
-//x
-	,
-007 
-:
-	A
-7
-    : chars ,
-
-[
-
-007
-
-    ]  :
-x
-
-, [
-//x
-  007	// " ++ [27880; 37322]%N ++ runes_of_ascii "
-  	, 255
-
-, """ ++ [28040; 24687]%N ++ runes_of_ascii """
-    , 42
-
-]	: Z9_
-    ,} ,@tag(
-    007//	t
-
-)
-    repeat  string len
-, int
     ,
-	Foo
-    {
-match
-
-roots	as
-    _x  {""// no comment"" :
-
-o	,
-[  4294967296 ,
-
-""" ++ [233]%N ++ runes_of_ascii "t" ++ [233]%N ++ runes_of_ascii """ ,
-4294967296
-    , 
-7,""packet"" 
-,
-	3	]:
-
-string_ ,""x y""  // " ++ [27880; 37322]%N ++ runes_of_ascii "
-  	: float [""a\""b"" 	 //x
-  , ""1""
-	] 	 // packet A { u8 x, }
-
-:
-	zchar ,  },
-
-    rootA
-
-    {
-repeat
-metadata {
-repeat
-char[ 1 ] i64_  `100% of %d`	,
-	match  matchKey	as
-	stringy
-{
-[ ""`tick`""]
-
-:
-    x ,  [	3
-
-, 65535	,
-	255 ,""a\\""  ,""a\\""	,  ""x y"" //x
-]  :  _x
-, 
-},
-    }
-,
-
-} 
-, repeat char 
-stringy
-,A `crlf
-line` ,	//	t
-      } 
-,
-@leftPad (
-) Header{
-i32
+}MetaData
+len { uint8x len , } packet options1{ @tag( 10
+    ) i8	roots@lengthOf( lengthOf  )	,
+char[
+1 ]u128 `" ++ [28040; 24687; 31867; 22411]%N ++ runes_of_ascii "` // @lengthOf(
+, a1 tag
+    `say ""hi""` ,
+    string
     asx
-@lengthOf(
-lengthOf
-
-), }
-	,}
-")).
-Eval vm_compute in ("<<<M1805>>>" ++ check (runes_of_ascii "options  {  StringPrefixLenType= u16 
-;
-
-ArrayPrefixLenType 
-=  u16  ; }
-packet	SampleBinary
-	{
-uint16	MsgType
-
-    `" ++ [28040; 24687; 31867; 22411]%N ++ runes_of_ascii "`
-
-    ,
-	u16
-	BodyLenght
-    @lengthOf(  Body  )
-`" ++ [28040; 24687; 20307; 38271; 24230]%N ++ runes_of_ascii "`
+`// not a comment` ,
+    } packet calculatedFrom{ int64
+    a1//x
 ,
-    match MsgType  as
-Body {1
-:  Logon
+// a // b
+//x
+}")).
+Eval vm_compute in ("<<<M1480>>>" ++ check (runes_of_ascii "options	{
+LittleEndian=true ;
+StringPrefixLenType  = u8 ; ArrayPrefixLenType
 
-,
-    2 : Logout
+= u8 
+; FixedStringPadFromLeft =true
+    ;
+
+FixedStringPadChar
+    =	'0' ;
+	}
+
+packet
+	Logon  {
+repeat	i8  Ref
 
     ,
 
-    3
-:Heartbeat
+    @rightPad (
+
+'0'  )char[
+    8]
+
+msgKind ,repeat
+InOrderid72 { 
+u8 Side2
 ,
-	4 :
-RiskControlRequest
 
-    ,5: RiskControlResponse ,
+    uint32
 
+    Qty
+, repeat InPrice27{ repeat 
+char[4
+]  Acct
+	,
+
+    u64
+sym	,
 } ,
-@calculatedFrom(
 
-    ""CRC32""
-	) 
-u32
-Ckecksum
-`" ++ [26657; 39564; 21644]%N ++ runes_of_ascii "`
-    , } packet Logon
-	{	@leftPad 
-(
-'0') char[ 10
-]UserName
-	`" ++ [29992; 25143; 21517]%N ++ runes_of_ascii "`,string Password `" ++ [23494; 30721]%N ++ runes_of_ascii "`
-	,uint64 ClientId `" ++ [23458; 25143; 31471]%N ++ runes_of_ascii "ID`	,u16  HeartbeatInterval`" ++ [24515; 36339; 38388; 38548]%N ++ runes_of_ascii "` ,
-    }
-packet
-	Logout
-	{
+zchar[
+    4]
+    clOrdID
+,int16
 
-    @rightPad (	'0'
-    )char[ 10] 
-UserName `" ++ [29992; 25143; 21517]%N ++ runes_of_ascii "`
-    ,
+lastPx
+	,
+    InAcct22 {
+repeat
 
-    uint64 ClientId
-    `" ++ [23458; 25143; 31471]%N ++ runes_of_ascii "ID` ,
+    char[	3
 
-    }packet
-
-    Heartbeat { 
-} 
-packet
-	RiskControlRequest 
-{
-
-    string UniqueOrderId
-
-`" ++ [21807; 19968; 35746; 21333; 21495]%N ++ runes_of_ascii "` , char[ 16 ]ClOrdID `" ++ [23458; 25143; 35746; 21333; 21495]%N ++ runes_of_ascii "`  ,char[ 3
 ]
-    MarketID	`" ++ [24066; 22330]%N ++ runes_of_ascii "id`
+
+    OrderId,}
 ,
-char[  12 ] SecurityID
-`" ++ [35777; 21048; 20195; 30721]%N ++ runes_of_ascii "` 
-,
+    }
+, int64
 
-    char
+Px	, } 
+packet Fill
 
-    Side `" ++ [20080; 21334; 26041; 21521]%N ++ runes_of_ascii "`
-
-,
-	char OrderType `" ++ [35746; 21333; 31867; 22411]%N ++ runes_of_ascii "`,u64 Price
-`" ++ [20215; 26684]%N ++ runes_of_ascii "`  , u32
-
+{ uint16 
 Qty
 
-`" ++ [25968; 37327]%N ++ runes_of_ascii "`
-    ,  repeat 
-string	ExtraInfo
+,
+repeat char[ 1 ]
+Flags
 
-`" ++ [38468; 21152; 20449; 24687]%N ++ runes_of_ascii "`
+    ,i8 Ref
 
-,repeat SubOrder 
+, } packet	Logout
 {
-char[ 
-16] ClOrdID	`" ++ [23376; 35746; 21333; 21495]%N ++ runes_of_ascii "`
-, u64
-    Price`" ++ [23376; 35746; 21333; 20215; 26684]%N ++ runes_of_ascii "`  , u32 Qty
+@leftPad(
+'0'
 
-`" ++ [23376; 35746; 21333; 25968; 37327]%N ++ runes_of_ascii "` ,
-}
+    ) char[
+3]
+    x, int8
+    f1  , Logon 
+, uint16 venue
+,
+zchar[  2 ]
 
-,}
-packet	RiskControlResponse{ string 
-UniqueOrderId 
-`" ++ [21807; 19968; 35746; 21333; 21495]%N ++ runes_of_ascii "`,i32  Status 
-`" ++ [29366; 24577]%N ++ runes_of_ascii "` ,
+    Px
+,
+	} packet 
+Reject	{
+} root packet 
+Leg
 
-string
-Msg
+    {	Fill  ,u16
 
-`" ++ [32467; 26524; 20449; 24687]%N ++ runes_of_ascii "`
-
-,repeat  Detail	,
-    }packet
-
-    Detail
-{ string  RuleName
-`" ++ [35268; 21017; 21517; 31216]%N ++ runes_of_ascii "`,
-u16
-    Code
-`" ++ [21407; 22240; 20195; 30721]%N ++ runes_of_ascii "`
-,} ")).
-Eval vm_compute in ("<<<M1896>>>" ++ check (runes_of_ascii "root
-packet 
-len
-
-{	match x
+msgKind 
+,
+    match
+    msgKind
 as
-	metadata  // " ++ [27880; 37322]%N ++ runes_of_ascii "
-	{
-
-    [
-    1  
-  // packet A { u8 x, }
-    	//x
-	,
-    0
-,""""	,""a	b"" 
-, 00
+Body
+    {[182
+,  83
 
 ]
-    : pack
-	,[""// no comment"",
-""x y""
+
+:
+	Fill 
 ,
-""" ++ [233]%N ++ runes_of_ascii "t" ++ [233]%N ++ runes_of_ascii """
 
-    ]	:  Packet//
-		,  }  ,	repeat
-    lengthOf
-u128 ,
+    199
 
-@calculatedFrom( 
-// " ++ [128512]%N ++ runes_of_ascii " emoji
-  	""it's""	)  @lengthOf(calculatedFrom
-    // trailing space 
-  // 50% %s
-      )
-	@lengthOf( u
-
-)
-	metadata
-{
-	int8
-lengthOf
-`crlf
-line`,
-    } ,
-@tag( // trailing space 
-4294967296
-
-)calculatedFrom	{  f32
-    i64_ 	 // packet A { u8 x, }
-`" ++ [233]%N ++ runes_of_ascii "` 
-,
-}
-    , 
-@lengthOf(
-
-BodyLength
-
-    )repeat 	 //x
-	char[
-
-65535] float 
-	    // `tick` ""quote"" 'q'
-	// c
-      ,
-@calculatedFrom(  ""\" ++ [233]%N ++ runes_of_ascii """  ) i64_{match
-    stringy
-as
-
-    _x
-{ 	 //	t
-		[
-
-    4294967296 ,
-3
-	] : i8i8 , [
-""a\""b""
-
-    ]	:  x_y_z
-	,
-3
-	:len	,  }	, }
-    ,
-@tag(	// trailing space 
-0
-
-    )
-
-zchar[
-
-7]
-    x_y_z	, @lengthOf(
-Header)repeat
-    // 50% %s
-    /// triple
-  u64  As`
-`
-,// " ++ [27880; 37322]%N ++ runes_of_ascii "
-    @rightPad( )/// triple
-	@rightPad 
-('\x00'
-) u16
-Header
-    `{ , }`
-,} ")).
-Eval vm_compute in ("<<<M224>>>" ++ check (runes_of_ascii "packet
-leftPad {
-@lengthOf( len
-)  Pad u
-`" ++ [28040; 24687; 31867; 22411]%N ++ runes_of_ascii "` , } root
-packet As{ uint16
-    calculatedFrom ,
-    // c
-    }packet
-Header { }
-packet
-int{@rightPad ( // " ++ [27880; 37322]%N ++ runes_of_ascii "
-'0'	)repeat
-Foo// @lengthOf(
-stringy ,
-len
-    // " ++ [27880; 37322]%N ++ runes_of_ascii "
-    { float64
-i64_ `it's` , } ,repeat
-MetaDataX//x
-{
-rootA
-`crlf
-line`	, match string_ as roots {""it's""
-    // @lengthOf(
-    :x 7
     :
-    A //x
-, // @lengthOf(
-}
-,
-char
-u128 `" ++ [233]%N ++ runes_of_ascii "` ,}  , @lengthOf( MetaDataX ) @leftPad ('0' ) //
-@leftPad ( ) char[] body , @calculatedFrom(
-""""
-) calculatedFrom
-    trueish ,
-    Packet ,repeat As{
-    char[ 65535] Header , i8 /// triple
-Packet ,
-} ,  char[
-    00]	packetx
-@lengthOf(
-u8x) `u8 x,` // " ++ [27880; 37322]%N ++ runes_of_ascii "
-,
-    // " ++ [128512]%N ++ runes_of_ascii " emoji
-    @calculatedFrom( ""`tick`"" ) @lengthOf(
-A
-    )
-    match
-body
-as //
-i64_
-{// a // b
-[ 1 ] :
-// trailing space 
-// `tick` ""quote"" 'q'
-f32a, },	i8 _x @calculatedFrom(	""// no comment"" )
-// trailing space 
-// a // b
-``, }
-// a // b
-")).
-Eval vm_compute in ("<<<M1629>>>" ++ check (runes_of_ascii "root packet rootA {
-}
+Reject,
+    137
+:
+	Logout  ,	35:Logon ,}	,
 
-packet Z9_ {
-    repeat char[007] f32a,
-    @rightPad( )
-    u32 Header `a\`,
-    repeat Z9_,
-    repeat i8i8 int `u8 x,`,// `tick` ""quote"" 'q'
-    uint8x,
-    f64 i8i8 `" ++ [28040; 24687; 31867; 22411]%N ++ runes_of_ascii "`,
-    @tag(3)
-    // `tick` ""quote"" 'q'
-    @tag(3)
-    @tag(10)
-    repeat int {
-        MetaDataX,
-    },
-    @tag(10)
-    int8 pack @lengthOf(x),
-}
+u32
+lastPx@calculatedFrom( 
+""CRC32""
 
-packet metadata {
-    @calculatedFrom(""" ++ [233]%N ++ runes_of_ascii "t" ++ [233]%N ++ runes_of_ascii """)
-    repeat rootA uint8x,
-    @calculatedFrom(""\n"")
-    @lengthOf(len)
-    BodyLength {
-        matchKey f32a `a\`,
-    },
-    char[] leftPad `tab	here`,
-    // " ++ [27880; 37322]%N ++ runes_of_ascii "
-    u32 a1,
-}
-
-packet trueish {
-    @tag(007)
-    f64 f32a @calculatedFrom("""") `say ""hi""`,
-    @calculatedFrom(""packet"")
-    @calculatedFrom(""" ++ [28040; 24687]%N ++ runes_of_ascii """)
-    repeat char[3] zchar `
-    `,
-}
-
-MetaData tag {
+    ),
 }")).
-Eval vm_compute in ("<<<M355>>>" ++ check (runes_of_ascii "options  { } root packet A {
-@tag(
-65535 ) @lengthOf( calculatedFrom )
-match msg_type as
-_x // `tick` ""quote"" 'q'
-{// c
-00
-: MetaDataX// packet A { u8 x, }
-, 0123456789 :matchKey , [	""""
-    ]:
-//	t
+Eval vm_compute in ("<<<M1505>>>" ++ check (runes_of_ascii "packet i8i8 {
+    // trailing space 
+    // " ++ [27880; 37322]%N ++ runes_of_ascii "
+    MetaDataX @lengthOf(chars) `" ++ [233]%N ++ runes_of_ascii "`,// 50% %s
+    char[] u128 @lengthOf(u8x),
+    @lengthOf(T)
+    float64 repeatCount,
+    @tag(00)
+    MetaDataX,
+    // a // b
+    // trailing space 
+    uint64 chars `tab	here`,
+    string_ @lengthOf(As) ``,
+    zchar[00] asx @lengthOf(metadata) `line1
+        line2`,
+    @lengthOf(charz)
+    charz f32a `" ++ [28040; 24687; 31867; 22411]%N ++ runes_of_ascii "`,
+    @rightPad('\x00')
+    repeat BodyLength tag,
+}
+
+packet repeatCount {
+    crc stringy,
+}
+
+options {
+    zchar = char[];
+    options1 = false
+    repeatCount = ""a	b""
+    body = ""`tick`""
+}
+
+// a // b
 //x
-stringy["""",255
-, 4294967296 ,
-    /// triple
-    42 ,
-3,""// no comment"" ] :  chars  [//	t
-""abc"" , ""CRC32""
-]// c
-:A , ""\" ++ [233]%N ++ runes_of_ascii """
-: stringy ,
-    // `tick` ""quote"" 'q'
-    }
-    ,// @lengthOf(
-match
-// 50% %s
-// " ++ [128512]%N ++ runes_of_ascii " emoji
-trueish as repeatCount{ [ 4294967296 , """ ++ [233]%N ++ runes_of_ascii "t" ++ [233]%N ++ runes_of_ascii """] : //	t
-crc ""a\\""
-:falsey ,
-""a\\"" : A
-,	10 : // c
-uint8x , ""it's"" :
-    repeatCount
-, } ,  asx float, @rightPad ( ) f64 int @lengthOf(roots
-    )  `doc` , }
-    // c
-    options { string_=""packet"" ;}")).
-Eval vm_compute in ("<<<M1842>>>" ++ check (runes_of_ascii "
-
-  // top
-  options 
-    // c0
-  {
-
-    // c1
-		f32a 
-// c2
-	=
-	    // c3
-    	0 
-    // c4
-} 
-
-    // c5
-    packet 
-
-    // c6
-    trueish 
-      // c7
-		{
-    // c8
-    	} 
-	    // c9
-MetaData
-    // c10
-  _x 
-
-    // c11
-    	{ 
-    // c12
-
-char[
-	    // c13
-  	0123456789
-// c14
-  ]
-    // c15
-    zchar
-    // c16
-	,
-	// c17
-	string
-        // c18
-  crc
-    // c19
-    ,  
-  // c20
-
-char[
-// c21
-      1
-
-    // c22
-	]
-    // c23
-    options1 
-
-// c24
-
-,
-// c25
-	uint8 
-	    // c26
-
-  repeatCount 
-      // c27
-    , 
-
-    // c28
-	  }
-        // c29
- 
-")).
-Eval vm_compute in ("<<<M1134>>>" ++ check (runes_of_ascii "packet float
-    // c1
-{ // c2
-@rightPad // c3a
-  // c3b
-( // c4a
-  // c4b
-) // c5a
-  // c5b
-rootA // c6
-@lengthOf( // c7a
-  // c7b
-trueish // c8
-)
-    // c9
-,
-    // c10
-stringy // c11a
-  // c11b
-@lengthOf( // c12a
-  // c12b
-matchKey )
-    // c14
-, // c15a
-  // c15b
-char[ 4294967296 ]
-    // c18
-pack @lengthOf(
-    // c20
-uint8x
-    // c21
-) // c22a
-  // c22b
-,
-    // c23
-} // c24
-root // c25
-packet trueish {
-    // c28
-repeat uint64
-    // c30
-u128
-    // c31
-`say ""hi""` // c32
-,
-    // c33
-}
-    // c34
-")).
-Eval vm_compute in ("<<<M1866>>>" ++ check (runes_of_ascii "options {
-    uint8x = 007;
-    // c5
-    lengthOf = i8;
-    // c9
+MetaData MetaDataX {
+    Pad repeatCount `u8 x,`,
+    char[42] f32a ``,
+    _x Z9_,
 }
 
-// c10
-packet i64_ {
-    // c13
-    @calculatedFrom(""1"")
-    // c16
-    @tag(3)
-    // c19
-    @lengthOf(rootA)
-    // c22a
-    // c22b
-    repeat int8 Packet `tab	here`,// c27a
+packet Logon {
+    @tag(007)
+    o {
+        char Packet @lengthOf(repeatCount),
+    },
+}// a // b")).
+Eval vm_compute in ("<<<M1899>>>" ++ check (runes_of_ascii "// top
+packet A {
+    // c2a
+    // c2b
+    u8 a,// c5
+}// c6a
+
+// c6b
+packet B {
+    // c9
+    u16 b,
+}// c13a
+
+// c13b
+packet C {
+    // c16a
+    // c16b
+    u32 c,
+}
+
+// c20
+root packet M {
+    // c24
+    u16 Kc,// c27a
     // c27b
-}// c28
-
-packet _x {
-    // c31a
-    // c31b
-    matchKey x `" ++ [28040; 24687; 31867; 22411]%N ++ runes_of_ascii "`,// c35
-    int32 calculatedFrom `100% of %d`,
-    // c39
-    @lengthOf(trueish)
-    // c42
-    Packet,
-    repeat f32 o,// c48
+    u16 Kb,// c30a
+    // c30b
+    u16 Ka,
+    // c33
+    match Kc as X {
+        9 : A,
+        10 : B,
+        // c46
+    },// c48a
+    // c48b
+    match Kb as Y {
+        2 : C,
+        // c57a
+        // c57b
+        1 : A,
+        // c61
+    },// c63a
+    // c63b
+    match Ka as Z {
+        // c68
+        1 : B,
+        // c72a
+        // c72b
+    },// c74a
+    // c74b
+    A,// c76
+    B,// c78a
+    // c78b
+    C,// c80a
+    // c80b
+}// c81")).
+Eval vm_compute in ("<<<M1870>>>" ++ check (runes_of_ascii "options {
+    stringy = zchar[0123456789]
 }
-// c49")).
-Eval vm_compute in ("<<<M1550>>>" ++ check (runes_of_ascii "  packet uint8x  { }root
-packet	repeatCount {
 
-    @rightPad
-    (	'\x00'
-)  // 50% %s
-    i16 roots
-,@rightPad (	)repeat 	 // 50% %s
-trueish
-{
-	tag@calculatedFrom(
-""1""
-    )	`line1
-line2`
-
-, string
-	crc  `100% of %d`
-	,
-
-repeat
-char[]
-
-trueish//
-    	`// not a comment` , repeat
-
-    BodyLength
-
-u	`{ , }`
-,} ,
-
-char tag,
-    @lengthOf(
-body 
-) @tag(
-
-007
-    )
-@calculatedFrom(	""" ++ [128512]%N ++ runes_of_ascii """ 
-)
-
-    char[
-	007 ] uint8x, 
+MetaData charz {
+    zchar[42] calculatedFrom,
+    // `tick` ""quote"" 'q'
+    char[65535] trueish,
+    float64 roots `doc`,
 }
-")).
-Eval vm_compute in ("<<<M1956>>>" ++ check (runes_of_ascii "MetaData
-Logon/// triple
 
-{char[  255  ]
-        // trailing space 
-  // `tick` ""quote"" 'q'
-		msg_type
+packet calculatedFrom {
+    @calculatedFrom(""" ++ [128512]%N ++ runes_of_ascii """)
+    string crc `crlf
+        line`,
+    MetaDataX {
+        Packet @lengthOf(packetx) `{ , }`,// trailing space 
+        repeat trueish As,
+    },
+    int64 T,// `tick` ""quote"" 'q'
+    match uint8x as i64_ {
+        00 : _x,
+        65535 : Z9_,
+        ""1"" : u8x,
+        007 : Z9_,
+        /// triple
+        255 : matchKey,
+        ""1"" : crc,
+    },// " ++ [128512]%N ++ runes_of_ascii " emoji
+}// @lengthOf(")).
+Eval vm_compute in ("<<<M1437>>>" ++ check (runes_of_ascii "
 
-, A
+  // 50% %s
 
-    msg_type  ,
-	char[4294967296
+  packet
+	crc{ char[65535 ]
+    Foo`" ++ [233]%N ++ runes_of_ascii "`	, calculatedFrom Header ,
+stringy
+MetaDataX  , @lengthOf(
+//
+    BodyLength ) 
+lengthOf
+	{  f32
+	u
 
+`100% of %d`  ,
+
+T
+@lengthOf(
+	leftPad)
+	,  f32
+// 50% %s
+	  f32a `it's`	, zchar[  255
+]  crc
+    ,  }
+,
+Pad
+@calculatedFrom(
+	""abc"") , @lengthOf(
+repeatCount
+
+) @rightPad
+
+    (	) 
+@tag( 
+1 // trailing space 
+	  )//	t
+  char[7
 ]
 
-    u	,  // 50% %s
-} root
+MetaDataX @calculatedFrom(
 
-    packet 
-/// triple
-		uint8x
-    {
-    match
-_x as
-    len
+""\n"" )	,
+	repeat
 
-    {
-255: a1 , 10 
-  // a // b
-  :
-
-    options1 
-} ,
-crc 
-      // a // b
-
-  ,
-@lengthOf(Header
-)  repeat roots	`say ""hi""` ,
-
-    //
-  // c
-  }
+    uint64
+pack,
+	@calculatedFrom(	""CRC32"")repeat
+    x_y_z  msg_type
+    `say ""hi""` 
+,
+	}
 
 ")).
+Eval vm_compute in ("<<<M370>>>" ++ check (runes_of_ascii "// 50% %s
+packet crc
+{  char[65535	] Foo
+    `" ++ [233]%N ++ runes_of_ascii "` , calculatedFrom	Header, stringy MetaDataX, @lengthOf(
+    //
+    BodyLength
+    ) lengthOf  { f32 u `100% of %d`
+,T
+    @lengthOf(
+leftPad )	,f32
+    // 50% %s
+    f32a `it's`
+,
+    zchar[	255 ]crc , } ,Pad
+    @calculatedFrom( ""abc"" ) ,
+    @lengthOf(
+repeatCount  ) @rightPad ( ) @tag( 1// trailing space 
+) //	t
+char[
+7 ] MetaDataX
+@calculatedFrom(
+""\n"" ) ,	repeat uint64 pack,
+@calculatedFrom(
+""CRC32"") repeat x_y_z
+msg_type `say ""hi""` , }")).
+Eval vm_compute in ("<<<M1369>>>" ++ check (runes_of_ascii "options {
+    LittleEndian = true;
+    ArrayPrefixLenType = u32;
+    FixedStringPadChar = ' ';
+}
+packet Order {
+    char[5] seqNo,
+    uint8 Px,
+}
+packet Logon {
+    @rightPad('\x00') char[8] Flags,
+    zchar[3] count,
+    repeat Order,
+}
+root packet Party {
+    repeat Logon,
+    repeat char[1] x,
+    u32 price,
+    u32 Side2 @lengthOf(Body),
+    match price as Body {
+        49 : Order,
+        196 : Logon,
+    },
+    u32 f1 @calculatedFrom(""CRC32""),
+}
+")).
+Eval vm_compute in ("<<<M1453>>>" ++ check (runes_of_ascii "options {
+    LittleEndian = false;
+    StringPrefixLenType = u16;
+    FixedStringPadFromLeft = true;
+    FixedStringPadChar = '0';
+}
+
+packet Fill {
+}
+
+root packet Order {
+    repeat Fill,
+    char[] clOrdID,
+    @rightPad('\x00')
+    char[4] lastPx,
+    char[] OrderId,
+    int8 tag7,
+    u8 f1,
+    u16 count @lengthOf(Body),
+    match f1 as Body {
+        [159, 49] : Fill,
+    },
+    u16 Tail @calculatedFrom(""CRC32""),
+}")).
+Eval vm_compute in ("<<<M1493>>>" ++ check (runes_of_ascii "root packet a1 {
+    i8 A @calculatedFrom(""\" ++ [233]%N ++ runes_of_ascii """),
+    @lengthOf(int)
+    @lengthOf(len)
+    @lengthOf(f32a)
+    string u8x `say ""hi""`,
+    char[00] As @lengthOf(Z9_),
+    repeat leftPad,
+    repeat x_y_z,
+    @rightPad('0')
+    f64 lengthOf @calculatedFrom(""`tick`"") `100% of %d`,
+    repeat char Foo,
+    match msg_type as x_y_z {
+        [255, 7, 10, ""a	b""] : Foo,
+        // a // b
+    },
+}")).
 Eval vm_compute in ("<<<M67>>>" ++ check (runes_of_ascii "
 options { } options { string_
 =
@@ -861,435 +664,432 @@ roots// @lengthOf(
 , 42:
 pack, """ ++ [233]%N ++ runes_of_ascii "t" ++ [233]%N ++ runes_of_ascii """ : Z9_,
 } , }")).
-Eval vm_compute in ("<<<M333>>>" ++ check (runes_of_ascii "MetaData Pad
-{ } MetaData BodyLength {
-// trailing space 
-// trailing space 
-} root	packet MetaDataX // trailing space 
-{// 50% %s
-@lengthOf( a1
-) match
-    trueish // a // b
-as
-uint8x {[
-""// no comment"" , ""CRC32""
-    ,""" ++ [28040; 24687]%N ++ runes_of_ascii """ ,
-""" ++ [128512]%N ++ runes_of_ascii """, ""// no comment"" ,""abc"" ] :Logon
-    , } , match T as crc {
-    ""\n"":	Z9_
-    , } ,	}
-")).
-Eval vm_compute in ("<<<M1399>>>" ++ check (runes_of_ascii "  options
-
-    {LittleEndian =
-
-    true	;  }packet
-	Sub  {u8 a
-	, u16  SubSum @calculatedFrom(
-	""CRC16"" ) ,
-
-    }
-	root
-
-packet
-    Frame {u16
-MsgType,u16 BodyLen	@lengthOf(Body ) ,
-    Sub Body ,
-string
-note , 
-u16 Checksum
-
-    @calculatedFrom( ""CRC16"" )
-,u8  tail,
-	}
-")).
-Eval vm_compute in ("<<<M1425>>>" ++ check (runes_of_ascii "// top
-      root// c0
-packet 	 // c1
-	P // c2a
-  	// c2b
-  {	// c3a
-      // c3b
-
-	u8  // c4a
-  // c4b
-
-s_u8 // c5a
-
-	// c5b
-  ,  repeat
-// c7
-
-u8  // c8a
-// c8b
-		r_u8// c9a
-
-	// c9b
-	,
-    // c10
-u16
-// c11
-b_len 	 // c12
-
-,  // c13a
-    // c13b
-    }
-")).
-Eval vm_compute in ("<<<M452>>>" ++ check (runes_of_ascii "packet
-    asx { @calculatedFrom(
-""""  ) @tag( 255 )repeat
-// packet A { u8 x, }
-// trailing space 
-int16 u8x
-,
-@tag( @tag(
-    //
-    007 )
-    @tag( 0
-    /// triple
-    ) @tag( 1) u
-    @lengthOf( T ),
-// `tick` ""quote"" 'q'
-//x
-} // " ++ [128512]%N ++ runes_of_ascii " emoji")).
-Eval vm_compute in ("<<<M487>>>" ++ check (runes_of_ascii "packet
-    asx { @calculatedFrom(
-""""  ) @tag( 255 )repeat
-// packet A { u8 x, }
-// trailing space 
-int16 u8x
-,
-@tag(
-    //
-    007 )
-    @tag( 0
-    /// triple
-    ) @tag( 1 1) u
-    @lengthOf( T ),
-// `tick` ""quote"" 'q'
-//x
-} // " ++ [128512]%N ++ runes_of_ascii " emoji")).
-Eval vm_compute in ("<<<M428>>>" ++ check (runes_of_ascii "packet
-    asx { @calculatedFrom(
-""""  ) @tag( 255 repeat)
-// packet A { u8 x, }
-// trailing space 
-int16 u8x
-,
-@tag(
-    //
-    007 )
-    @tag( 0
-    /// triple
-    ) @tag( 1) u
-    @lengthOf( T ),
-// `tick` ""quote"" 'q'
-//x
-} // " ++ [128512]%N ++ runes_of_ascii " emoji")).
-Eval vm_compute in ("<<<M411>>>" ++ check (runes_of_ascii "packet
-    asx { @calculatedFrom(
-""""   @tag( 255 )repeat
-// packet A { u8 x, }
-// trailing space 
-int16 u8x
-,
-@tag(
-    //
-    007 )
-    @tag( 0
-    /// triple
-    ) @tag( 1) u
-    @lengthOf( T ),
-// `tick` ""quote"" 'q'
-//x
-} // " ++ [128512]%N ++ runes_of_ascii " emoji")).
-Eval vm_compute in ("<<<M1658>>>" ++ check (runes_of_ascii "options {
-    i8i8 = ""\n""
-    Header = ""x y"";/// triple
-}
-
-root packet A {
-    match charz as T {
-        //
-        0 : options1,
-        // `tick` ""quote"" 'q'
-    },
-}
-
-packet float {
-    @rightPad( )
-    repeat metadata `u8 x,`,
-}")).
-Eval vm_compute in ("<<<M1555>>>" ++ check (runes_of_ascii "  MetaData u128
-{	zchar[
-// " ++ [128512]%N ++ runes_of_ascii " emoji
-// 50% %s
-4294967296 ]
-
-    lengthOf `a\`  ,  } 
-packet
-
-leftPad 
-{
-	@rightPad (
-'0'
-
-    )
-calculatedFrom
-	float	// 50% %s
-
-	`" ++ [28040; 24687; 31867; 22411]%N ++ runes_of_ascii "`
-,
-char[
-    255]
-
-    metadata
-    ,
-}")).
-Eval vm_compute in ("<<<M279>>>" ++ check (runes_of_ascii "MetaData zchar { }
-packet
-i8i8
-    { @calculatedFrom(""\n"") i8 tag@lengthOf(Packet)
+Eval vm_compute in ("<<<M131>>>" ++ check (runes_of_ascii "MetaData  u
+{ f64 roots , zchar trueish,}  root
+    packet Foo // @lengthOf(
+{ packetx  ,
+repeat zchar[ // trailing space 
+3 ]
     // " ++ [128512]%N ++ runes_of_ascii " emoji
-    , lengthOf{	char[] leftPad
-`{ , }`  , i32 crc @calculatedFrom(  ""a\\"" /// triple
-)
-, },
-}
-")).
-Eval vm_compute in ("<<<M1252>>>" ++ check (runes_of_ascii "// top
-root // c0a
-  // c0b
-packet // c1a
-  // c1b
-P // c2a
-  // c2b
-{
-    // c3
-char
-    // c4
-c // c5
-,
-    // c6
-u8 // c7a
-  // c7b
-x
-    // c8
-, // c9a
-  // c9b
-}
-    // c10
-")).
-Eval vm_compute in ("<<<M664>>>" ++ check (runes_of_ascii "MetaData u
-    { } MetaData o
-{ float uint8x
-`100% of %d` ,repeatCount u8x, string_ leftPad
-, i32
-    Foo , int64 x `two words` packet calculatedFrom
-stringy `a\` ,
-}
-")).
-Eval vm_compute in ("<<<M649>>>" ++ check (runes_of_ascii "MetaData u
-    { } MetaData o
-{ float uint8x
-`100% of %d` ,repeatCount u8x, string_ leftPad
-, i32
-    Foo , options x `two words` , calculatedFrom
-stringy `a\` ,
-}
-")).
-Eval vm_compute in ("<<<M573>>>" ++ check (runes_of_ascii "MetaData u
-    { } MetaData {
-o float uint8x
-`100% of %d` ,repeatCount u8x, string_ leftPad
-, i32
-    Foo , int64 x `two words` , calculatedFrom
-stringy `a\` ,
-}
-")).
-Eval vm_compute in ("<<<M571>>>" ++ check (runes_of_ascii "MetaData u
-    { } MetaData 
-{ float uint8x
-`100% of %d` ,repeatCount u8x, string_ leftPad
-, i32
-    Foo , int64 x `two words` , calculatedFrom
-stringy `a\` ,
-}
-")).
-Eval vm_compute in ("<<<M581>>>" ++ check (runes_of_ascii "MetaData u
-    { } MetaData o
-{  uint8x
-`100% of %d` ,repeatCount u8x, string_ leftPad
-, i32
-    Foo , int64 x `two words` , calculatedFrom
-stringy `a\` ,
-}
-")).
-Eval vm_compute in ("<<<M656>>>" ++ check (runes_of_ascii "MetaData u
-    { } MetaData o
-{ float uint8x
-`100% of %d` ,repeatCount u8x, string_ leftPad
-, i32
-    Foo , int64 x  , calculatedFrom
-stringy `a\` ,
-}
-")).
-Eval vm_compute in ("<<<M1804>>>" ++ check (runes_of_ascii "options
-
-{
-    }  options{MetaDataX
-= char ;// c
-
-	}MetaData
-    Pad 
-{
-
-    i8 metadata
-
-,string
-	stringy
-    ,
-
-    int8 
-As
-
-`{ , }`
-
-, } ")).
-Eval vm_compute in ("<<<M46>>>" ++ check (runes_of_ascii "packet u8x  { @leftPad ( //	t
-'0'//x
-)
-    uint8x lengthOf
-    `line1
-line2`
-    // 50% %s
-    ,
-}
-packet msg_type{
-}MetaData u {
+    msg_type `
+` ,  } root packet Header { match u8x
+as options1 {
+4294967296 :metadata , // `tick` ""quote"" 'q'
+4294967296
+    :
+    // trailing space 
+    float , }
+    ,//x
+}")).
+Eval vm_compute in ("<<<M1811>>>" ++ check (runes_of_ascii "packet roots {
+    pack ``,//	t
+    T @lengthOf(tag),
+    x {
+        match len as packetx {
+            [10] : rootA,
+        },
+        repeat string leftPad `
+                `,//	t
+        char[7] Packet @calculatedFrom(""a	b""),
+        char[] uint8x ``,
+    },
+    uint16 leftPad,
+}")).
+Eval vm_compute in ("<<<M1492>>>" ++ check (runes_of_ascii "MetaData Logon {
+    char[255] msg_type,
+    A msg_type,
+    char[4294967296] u,// 50% %s
 }
 
-")).
-Eval vm_compute in ("<<<M1424>>>" ++ check (runes_of_ascii "
-packet
-    A {
-    match  k
-as n
-
-    { 
-[
-1 ,  22  , ""c c""  ,
-4,	5
-
-    , ""f""
-,
-7
-,
-
-    8 ] :
-B ,
-2
-: C } ,
-} ")).
-Eval vm_compute in ("<<<M460>>>" ++ check (runes_of_ascii "packet
+root packet uint8x {
+    match _x as len {
+        255 : a1,
+        10 : options1,
+    },
+    crc,
+    @lengthOf(Header)
+    repeat roots `say ""hi""`,
+    //
+    // c
+}")).
+Eval vm_compute in ("<<<M489>>>" ++ check (runes_of_ascii "packet
     asx { @calculatedFrom(
 """"  ) @tag( 255 )repeat
 // packet A { u8 x, }
 // trailing space 
 int16 u8x
 ,
-@tag(")).
-Eval vm_compute in ("<<<M1207>>>" ++ check (runes_of_ascii "options { } // c
-options { MetaDataX = char ; } MetaData Pad { i8 metadata , string stringy , int8 As `{ , }` , }")).
-Eval vm_compute in ("<<<M1239>>>" ++ check (runes_of_ascii "options { } options { MetaDataX = char ; } MetaData Pad { i8 metadata , string stringy , // c
-int8 As `{ , }` , }")).
-Eval vm_compute in ("<<<M878>>>" ++ check (runes_of_ascii "packet A {
-  match k as n {
-    [""a"", ""bb"", ""c c"", ""d"", ""e"", ""f"", ""g"", ""h"", ""i"", ""j""] : B,
-    2 : C
-  },
+@tag(
+    //
+    007 )
+    @tag( 0
+    /// triple
+    ) @tag( options) u
+    @lengthOf( T ),
+// `tick` ""quote"" 'q'
+//x
+} // " ++ [128512]%N ++ runes_of_ascii " emoji")).
+Eval vm_compute in ("<<<M517>>>" ++ check (runes_of_ascii "packet
+    asx { @calculatedFrom(
+""""  ) @tag( 255 )repeat
+// packet A { u8 x, }
+// trailing space 
+int16 u8x
+,
+@tag(
+    //
+    007 )
+    @tag( 0
+    /// triple
+    ) @tag( 1) u
+    @lengthOf( T ), ,
+// `tick` ""quote"" 'q'
+//x
+} // " ++ [128512]%N ++ runes_of_ascii " emoji")).
+Eval vm_compute in ("<<<M449>>>" ++ check (runes_of_ascii "packet
+    asx { @calculatedFrom(
+""""  ) @tag( 255 )repeat
+// packet A { u8 x, }
+// trailing space 
+int16 u8x
+]
+@tag(
+    //
+    007 )
+    @tag( 0
+    /// triple
+    ) @tag( 1) u
+    @lengthOf( T ),
+// `tick` ""quote"" 'q'
+//x
+} // " ++ [128512]%N ++ runes_of_ascii " emoji")).
+Eval vm_compute in ("<<<M486>>>" ++ check (runes_of_ascii "packet
+    asx { @calculatedFrom(
+""""  ) @tag( 255 )repeat
+// packet A { u8 x, }
+// trailing space 
+int16 u8x
+,
+@tag(
+    //
+    007 )
+    @tag( 0
+    /// triple
+    ) @tag( ) u
+    @lengthOf( T ),
+// `tick` ""quote"" 'q'
+//x
+} // " ++ [128512]%N ++ runes_of_ascii " emoji")).
+Eval vm_compute in ("<<<M248>>>" ++ check (runes_of_ascii "packet roots
+{ @lengthOf(	Header ) @tag( 4294967296 //	t
+) repeat leftPad `
+` , calculatedFrom
+    // packet A { u8 x, }
+    {
+repeat
+    char[] As , } , //	t
+char[] charz
+@calculatedFrom( //
+""" ++ [28040; 24687]%N ++ runes_of_ascii """	) ,
+    uint8x `tab	here` ,}")).
+Eval vm_compute in ("<<<M1606>>>" ++ check (runes_of_ascii "
+packet
+
+zchar 
+{@lengthOf(
+charz
+
+) zchar@lengthOf(
+	Header	)
+	`
+`  ,
+	u8
+    calculatedFrom
+, @calculatedFrom( ""x y"" 
+) u128 @calculatedFrom( ""it's""  )
+
+, }
+options
+
+{  float= 007  uint8x =  ""`tick`""; } ")).
+Eval vm_compute in ("<<<M1423>>>" ++ check (runes_of_ascii "
+
+  packet 
+asx
+
+    {
+
+    f32
+u
+@calculatedFrom(
+
+    ""packet"")
+,
+}
+MetaData  tag
+
+    {	zchar[
+	007 ]
+
+pack  ,
+
+zchar[
+
+    00 ]	// packet A { u8 x, }
+len  `
+`
+
+    , } ")).
+Eval vm_compute in ("<<<M1585>>>" ++ check (runes_of_ascii "options {
+    Packet = u16;
+    f32a = ""a\""b""
+    lengthOf = '0';
+    uint8x = i8
+    uint8x = '\x00';
+}
+
+packet rootA {
+}
+
+options {
+    uint8x = ""\" ++ [233]%N ++ runes_of_ascii """
+}
+
+MetaData Packet {
 }")).
-Eval vm_compute in ("<<<M924>>>" ++ check (runes_of_ascii "packet A {
+Eval vm_compute in ("<<<M1779>>>" ++ check (runes_of_ascii "
+packet  A
+    {u16
+    len @lengthOf(
+
+    body
+) 
+`100% of %s %d %v` 
+, 
+u32
+crc
+
+    @calculatedFrom(  ""CRC32"" )
+
+    `100% of %s %d %v`
+,
+	string body  ,
+}
+
+")).
+Eval vm_compute in ("<<<M1800>>>" ++ check (runes_of_ascii "packet A {
+    match k as n {
+        [
+            ""a"", ""bb"", 007, ""d"", ""e"",
+            66, ""g"", ""h"", 9, ""j"",
+            ""k""
+        ] : B,
+        2 : C,
+    },
+}")).
+Eval vm_compute in ("<<<M633>>>" ++ check (runes_of_ascii "MetaData u
+    { } MetaData o
+{ float uint8x
+`100% of %d` ,repeatCount u8x, string_ leftPad
+, Foo
+    i32 , int64 x `two words` , calculatedFrom
+stringy `a\` ,
+}
+")).
+Eval vm_compute in ("<<<M1403>>>" ++ check (runes_of_ascii "packet A {
+    match k as n {
+        [
+            ""a"", 22, ""c c"", 4, ""e"",
+            66, ""g"", 8, ""i"", 10,
+            ""k""
+        ] : B,
+        2 : C,
+    },
+}")).
+Eval vm_compute in ("<<<M1951>>>" ++ check (runes_of_ascii "options  {
+Packet
+=
+true
+msg_type  =  false 	 // 50% %s
+  	Logon // @lengthOf(
+	=
+true
+packetx 
+	    //
+// `tick` ""quote"" 'q'
+  = 
+""abc""	;
+pack =
+	' '}
+")).
+Eval vm_compute in ("<<<M1309>>>" ++ check (runes_of_ascii "
+packet	A
+	{
+
+u8  a
+
+,
+
+}
+packet B
+    {
+
+u16	b
+
+    ,}root
+
+    packet
+	P
+
+{ u8
+
+    K
+,
+    match  K as M 
+{
+1 :
+A, 1
+
+    :
+	B , 
+} , } ")).
+Eval vm_compute in ("<<<M1468>>>" ++ check (runes_of_ascii "packet A {
     Inner {
-        u8 x `a
-b`,
+        u8 x `
+                `,
         Deep {
-            u8 y `a
-b`,
+            u8 y `
+                        `,
         },
     },
 }")).
-Eval vm_compute in ("<<<M110>>>" ++ check (runes_of_ascii "options
-    {Foo= 00  ; Header =false calculatedFrom
-    = true; }	root  packet
-int //x
-{ len , }
-")).
-Eval vm_compute in ("<<<M860>>>" ++ check (runes_of_ascii "packet A {
-  match k as n {
-    [""a"", ""bb"", 007, ""d"", ""e"", 66, ""g"", ""h""] : B,
-    2 : C
-  },
-}")).
-Eval vm_compute in ("<<<M871>>>" ++ check (runes_of_ascii "packet A {
-  match k as n {
-    [1, 22, ""c c"", 4, 5, ""f"", 7, 8, ""i""] : B,
-    2 : C
-  },
-}")).
-Eval vm_compute in ("<<<M1430>>>" ++ check (runes_of_ascii "
+Eval vm_compute in ("<<<M670>>>" ++ check (runes_of_ascii "MetaData u
+    { } MetaData o
+{ float uint8x
+`100% of %d` ,repeatCount u8x, string_ leftPad
+, i32
+    Foo , int64 x `two words` ,")).
+Eval vm_compute in ("<<<M1479>>>" ++ check (runes_of_ascii "options {
+}
 
-  packet 
-A	{
+options {
+    MetaDataX = char;
+}
 
-    B 
-b 
-`%%d%!` ,
-    B`%%d%!`
-	,
+MetaData Pad {
+    i8 metadata,
+    string stringy,
+    int8 As `{ , }`,
+}")).
+Eval vm_compute in ("<<<M1575>>>" ++ check (runes_of_ascii "
+options
 
-repeat  B
-bs
-    `%%d%!` , }
-")).
-Eval vm_compute in ("<<<M813>>>" ++ check (runes_of_ascii "packet A {
-  match k as n {
-    [""a"", ""bb"", ""c c"", ""d"", ""e""] : B,
-    2 : C
-  },
-}")).
-Eval vm_compute in ("<<<M817>>>" ++ check (runes_of_ascii "packet A {
-  match k as n {
-    [""a"", 22, ""c c"", 4, ""e""] : B,
-    2 : C
-  },
-}")).
-Eval vm_compute in ("<<<M1571>>>" ++ check (runes_of_ascii "root packet
-    P
-    {
-u16 a
+    {  x
+
+    =	""a\\"" ; }
+    MetaData u	{
+u8  falsey 
 ,
-	u32
-	Sum @calculatedFrom(""CRC32""  )
-, 
+
+crc
+    zchar
+
+,
+    }
+    /// triple
+ 
+")).
+Eval vm_compute in ("<<<M1230>>>" ++ check (runes_of_ascii "options { } options { MetaDataX = char ; } MetaData Pad { i8
+// c
+metadata , string stringy , int8 As `{ , }` , }")).
+Eval vm_compute in ("<<<M941>>>" ++ check (runes_of_ascii "packet A {
+    u16 len @lengthOf(body) `a
+
+b`,
+    u32 crc @calculatedFrom(""CRC32"") `a
+
+b`,
+    string body,
 }")).
-Eval vm_compute in ("<<<M1508>>>" ++ check (runes_of_ascii "packet
-A {
+Eval vm_compute in ("<<<M266>>>" ++ check (runes_of_ascii "options { /// triple
+msg_type =4294967296 ;
+chars  = 4294967296 ;}
+options{
+// c
+//
+asx =
+    ""\n"" }
+")).
+Eval vm_compute in ("<<<M954>>>" ++ check (runes_of_ascii "packet A {
+    Inner {
+        u8 x `
+x`,
+        Deep {
+            u8 y `
+x`,
+        },
+    },
+}")).
+Eval vm_compute in ("<<<M72>>>" ++ check (runes_of_ascii "
+root
+packet string_ {  }options { i64_ = '\x00'
+    ; Pad =
+int32 ; calculatedFrom = 255
+    }")).
+Eval vm_compute in ("<<<M1825>>>" ++ check (runes_of_ascii "packet A {
+    match k as n {
+        [""a"", 22, ""c c"", 4, ""e""] : B,
+        2 : C,
+    },
+}")).
+Eval vm_compute in ("<<<M246>>>" ++ check (runes_of_ascii "
+MetaData calculatedFrom {
+x
+    float
+,
+//x
+//	t
+T lengthOf
+, }root packet Pad
+{ }
+")).
+Eval vm_compute in ("<<<M1439>>>" ++ check (runes_of_ascii "
+packet
 
-B
-    b
+A
+{
+match 
+k
 
-`a
-b`,  B  `a
-b`
+as
+    n {
+[ ""a"" ,
 
-, repeat
+    ""bb"" 
+]
 
-    B  bs	`a
-b` 
-,}")).
+    : B 2: C
+}  ,  }")).
+Eval vm_compute in ("<<<M914>>>" ++ check (runes_of_ascii "packet A { Inner { match k as n { [1,22,007,4,5,66,7,8,9,10,11,12] : B, }, }, }")).
+Eval vm_compute in ("<<<M143>>>" ++ check (runes_of_ascii "options {
+    // `tick` ""quote"" 'q'
+    x_y_z = // " ++ [128512]%N ++ runes_of_ascii " emoji
+zchar[ 10 ]
+}
+")).
+Eval vm_compute in ("<<<M812>>>" ++ check (runes_of_ascii "packet A {
+  match k as n {
+    [1, 22, 007, 4, 5] : B
+    2 : C
+  },
+}")).
 Eval vm_compute in ("<<<M849>>>" ++ check (runes_of_ascii "packet A { Inner { match k as n { [1,22,007,4,5,66,7] : B, }, }, }")).
-Eval vm_compute in ("<<<M823>>>" ++ check (runes_of_ascii "packet A { Inner { match k as n { [1,22,007,4,5] : B, }, }, }")).
+Eval vm_compute in ("<<<M776>>>" ++ check (runes_of_ascii "packet A {
+  match k as n {
+    [1, 22] : B,
+    2 : C
+  },
+}")).
 Eval vm_compute in ("<<<M928>>>" ++ check (runes_of_ascii "packet A {
     B b `
 `,
@@ -1298,51 +1098,53 @@ Eval vm_compute in ("<<<M928>>>" ++ check (runes_of_ascii "packet A {
     repeat B bs `
 `,
 }")).
-Eval vm_compute in ("<<<M961>>>" ++ check (runes_of_ascii "MetaData M {
-    u8 x `tab
-	x`,
-    T t `tab
-	x`,
+Eval vm_compute in ("<<<M430>>>" ++ check (runes_of_ascii "packet
+    asx { @calculatedFrom(
+""""  ) @tag( 255")).
+Eval vm_compute in ("<<<M984>>>" ++ check (runes_of_ascii "options {
+    a = ""x\
+y"";
+    b = ""x\
+y""
 }")).
-Eval vm_compute in ("<<<M3>>>" ++ check (runes_of_ascii "packet // " ++ [27880; 37322]%N ++ runes_of_ascii "
-MetaDataX {int64  leftPad , }
-")).
-Eval vm_compute in ("<<<M1856>>>" ++ check (runes_of_ascii "MetaData
-M
-{  u8 
-x
-`
-`  , 
+Eval vm_compute in ("<<<M1451>>>" ++ check (runes_of_ascii "
+
+  packet
 T
 
-t `
-`,
+    {  string pack, 
 } ")).
-Eval vm_compute in ("<<<M204>>>" ++ check (runes_of_ascii "MetaData  matchKey
-{ char[] Foo , }")).
-Eval vm_compute in ("<<<M525>>>" ++ check (runes_of_ascii "packet
-    asx { @calculatedFrom(")).
-Eval vm_compute in ("<<<M1591>>>" ++ check (runes_of_ascii "  packet
-    A
-
-{
-    }// c" ++ [5760]%N ++ runes_of_ascii "
- 
-")).
-Eval vm_compute in ("<<<M744>>>" ++ check (runes_of_ascii "=_?xc%p\XM[z`Z.E8&!3PsEU?W+/")).
-Eval vm_compute in ("<<<M324>>>" ++ check (runes_of_ascii "packet
-BodyLength { }
-
-")).
-Eval vm_compute in ("<<<M1602>>>" ++ check (runes_of_ascii "options {
-    a = 1;
-}")).
-Eval vm_compute in ("<<<M1001>>>" ++ check (runes_of_ascii "// c" ++ [12288]%N ++ runes_of_ascii "
-packet A {
-}")).
-Eval vm_compute in ("<<<M1102>>>" ++ check (runes_of_ascii "packet A { // a
+Eval vm_compute in ("<<<M1100>>>" ++ check (runes_of_ascii "options { a = 1; // a
+ b = 2 // b
  }")).
-Eval vm_compute in ("<<<M1920>>>" ++ check (runes_of_ascii "MetaData f32a {
+Eval vm_compute in ("<<<M926>>>" ++ check (runes_of_ascii "root packet A {
+    u8 x `a
+b`,
 }")).
-Eval vm_compute in ("<<<M764>>>" ++ check (runes_of_ascii "Ldg$cJ:9=")).
-Eval vm_compute in ("<<<M734>>>" ++ check (runes_of_ascii " " ++ [12]%N ++ runes_of_ascii " ")).
+Eval vm_compute in ("<<<M585>>>" ++ check (runes_of_ascii "MetaData u
+    { } MetaData o
+{")).
+Eval vm_compute in ("<<<M939>>>" ++ check (runes_of_ascii "packet A {
+    u8 x `a
+
+b`,
+}")).
+Eval vm_compute in ("<<<M1747>>>" ++ check (runes_of_ascii "  // c" ++ [11]%N ++ runes_of_ascii "
+		packet
+
+A{
+}
+")).
+Eval vm_compute in ("<<<M767>>>" ++ check ([65533]%N ++ runes_of_ascii ">" ++ [65533; 3; 65533; 65533; 65533]%N ++ runes_of_ascii "z" ++ [29]%N ++ runes_of_ascii "(" ++ [646; 65533]%N ++ runes_of_ascii "5" ++ [65533]%N ++ runes_of_ascii "4_" ++ [65533; 15; 65533]%N ++ runes_of_ascii "i" ++ [65533; 65533]%N)).
+Eval vm_compute in ("<<<M1000>>>" ++ check (runes_of_ascii "packet A {
+}
+// c" ++ [12288]%N)).
+Eval vm_compute in ("<<<M1093>>>" ++ check (runes_of_ascii "MetaData M {
+}// c")).
+Eval vm_compute in ("<<<M1172>>>" ++ check (runes_of_ascii "packet x {
+// c
+}")).
+Eval vm_compute in ("<<<M730>>>" ++ check (runes_of_ascii "// a
+// b
+")).
+Eval vm_compute in ("<<<M757>>>" ++ check (runes_of_ascii "char")).
